@@ -88,8 +88,8 @@ add("C05", "TestC05", "exploration",
     RAPID + " + model-based operation sequences (stateful)", "DESIGN.md §4 C05")
 
 add("C06", "TestC06", "exploration",
-    dict(cases=24000, shards=8, extra=[dict(test="TestC06Fidelity"), dict(test="TestC06Archive", shards=8)]),
-    dict(cases=500000, shards=16, timeout_s=3000, extra=[dict(test="TestC06Fidelity"), dict(test="TestC06Archive", shards=8)]),
+    dict(cases=24000, shards=8, extra=[dict(test="TestC06Fidelity"), dict(test="TestC06Archive", shards=8), dict(test="TestC06Large", shards=2)]),
+    dict(cases=500000, shards=16, timeout_s=3000, extra=[dict(test="TestC06Fidelity"), dict(test="TestC06Archive", shards=8), dict(test="TestC06Large", shards=7)]),
     "key sets K1..K7/Krand bounded by what the old writers could encode x fixed-size encoders x 8 layouts (three-section families A 0.5.0, B 0.5.1-3, C1 0.5.4-6, C2 0.5.7, D 0.5.8, E 0.5.9 with header 1.0.0/0.5.8/0.5.9; 0.5.10 and 0.5.11 in nopref/innpref/allpref); streams are PRODUCED by re-implemented writers; plus the 97 archived files; non-trivial = >= 2 keys and the loader's conversion did something (a key ending at an inner node or a step for three-section; a stored prefix or leaf reconstruction for 0.5.10)",
     "Generated-input search: every generated legacy stream must load without error and answer Get, RangeGet and Search for every indexed key as the model; KeyCnt preserved; allpref streams additionally give exact answers on Q(keys) and correct scans.",
     "Trusted base: the re-implemented legacy writers. Their fidelity is measured on every run (writer_fidelity in the evidence: archived files reproduced byte-for-byte); the three-section writer shares no code with /repo, the 0.5.10 writer is a transformation of the current builder's message.",
